@@ -1513,8 +1513,57 @@ def _c18_models(smt, K, groups, flags):
         return "MAP"
     m_map_new.wants_env = True
 
-    def m_entry(ex, v):
-        return "(C_entry %s)" % v[1]
+    def m_entry(ex, v, env):
+        # `Entry` as the enum it is (round-8 seed r8_c18_a matches on it): Occupied / Vacant decided by the association list
+        # (keys are the syntactically distinct (namespace, author) constants of the grouping); payload = the key
+        if any(k == v[1] for k, _, _ in env.get("__map", ())):
+            return "(%s %s)" % (smt.fun("C_Occupied", 1), v[1])
+        return "(%s %s)" % (smt.fun("C_Vacant", 1), v[1])
+    m_entry.wants_env = True
+
+    def _slot(env, keyterm):
+        key = mk_deref(keyterm) if keyterm.startswith("(ref ") else keyterm
+        for n, (k, ts, kv) in enumerate(env.get("__map", ())):
+            if k == key:
+                return n, key
+        return None, key
+
+    def _pair(val):
+        if not val.startswith("(C_tuple2 "):
+            raise ValueError("map value of an unexpected shape %s" % val[:60])
+        return split_sexpr_args(val)
+
+    def m_occ_get(ex, v, env):
+        n, key = _slot(env, v[0])
+        if n is None:
+            raise ValueError("OccupiedEntry::get on an absent key")
+        cell = "(ref CELL_%d)" % n
+        smt.fun("CELL_%d" % n, 0)
+        h = dict(env.get("__heap", {}))
+        h[(cell, "0")], h[(cell, "1")] = env["__map"][n][1], env["__map"][n][2]
+        env["__heap"] = h
+        return cell
+    m_occ_get.wants_env = True
+
+    def m_occ_insert(ex, v, env):
+        n, key = _slot(env, v[0])
+        if n is None:
+            raise ValueError("OccupiedEntry::insert on an absent key")
+        ts, kv = _pair(v[1])
+        mp = env["__map"]
+        old = "(C_tuple2 %s %s)" % (mp[n][1], mp[n][2])
+        env["__map"] = mp[:n] + ((key, ts, kv),) + mp[n + 1:]
+        return old
+    m_occ_insert.wants_env = True
+
+    def m_vac_insert(ex, v, env):
+        n, key = _slot(env, v[0])
+        if n is not None:
+            raise ValueError("VacantEntry::insert on a present key")
+        ts, kv = _pair(v[1])
+        env["__map"] = env.get("__map", ()) + ((key, ts, kv),)
+        return smt.const("entry_ref")
+    m_vac_insert.wants_env = True
 
     def closure_body(ex, idx):
         hits = find_body(ex.bodies, r"migration_001_populate_latest_table::\{closure#%d\}$" % idx)
@@ -1588,6 +1637,9 @@ def _c18_models(smt, K, groups, flags):
         r"^Table::<.*>::insert(::<.*>)?$": lambda ex, v: "(C_Ok C_None)",
         r"^HashMap::<.*>::new$": m_map_new,
         r"^HashMap::<.*>::entry$": m_entry,
+        r"hash_map::OccupiedEntry::<.*>::get$": m_occ_get,
+        r"hash_map::OccupiedEntry::<.*>::insert$": m_occ_insert,
+        r"hash_map::VacantEntry::<.*>::insert$": m_vac_insert,
         r"hash_map::Entry::<.*>::and_modify::<": m_and_modify,
         r"hash_map::Entry::<.*>::or_insert_with::<": m_or_insert_with,
         r"^HashMap::<.*>::len$": m_map_len,
@@ -1746,7 +1798,7 @@ def q_c18_heads_rebuild(bodies):
                         problems.append(("exactly one head row is written per (namespace, author) present in the records table", "sat", tag))
                         continue
                     # order facts: every Ge test in any term is the total preorder `ge`
-                    allterms = " ".join(" ".join(v) for v in ins)
+                    allterms = " ".join(" ".join(v) for v in ins) + " " + ctx_pc   # comparisons may also sit in the path condition (a `match` on the entry forks)
                     extra = []
                     for op, a, b2 in _find_ops(allterms):
                         t = "(op_%s %s %s)" % (op, a, b2)
